@@ -1,4 +1,5 @@
 import ScVerif.C14.Props
+import ScVerif.C14.PropsAccept
 import ScVerif.C14.Stamp
 /-!
 # C14 — the first write after a subscription, and write times
@@ -64,6 +65,30 @@ theorem C14_first_update_zero_baseline_fails :
     (step zeroBaseCfg s1 (.update "dev" 0)).2 = .val 0 ∧
     (step zeroBaseCfg s1 (.update "dev" 0)).1.streams.map (·.out) = [[]] := by
   decide
+
+/-! ### the acceptor and an established updates-only stream (observation `estab`) -/
+
+/-- **C14_acceptor_accepts_established_updates_only.** The harness may announce an updates-only stream as established
+before its first message (`estab i`: its listener was in the snapshot of the write's Send). The acceptor then still
+accepts EVERY sequence of announced values the model sends to such a stream - the first message included, must-entries
+from the first write on - so a rejection after `estab` is never an artefact of the acceptor's bookkeeping. -/
+theorem C14_acceptor_accepts_established_updates_only {U : Type} (C : Cfg Nat Nat U)
+    (heqv : ∀ l x, C.eqv l x = true → l = some x)
+    (hidem : ∀ m x, C.proj m (C.proj m x) = C.proj m x)
+    (cur : Nat) (name : String) (m : Option Nat) (vs : List Nat) :
+    acceptAll C (openStream C cur name m true) [] cur true vs = true :=
+  C14_acceptor_accepts_event_sequence C heqv hidem vs (openStream C cur name m true) [] cur true rfl
+    (by intro w hw; simp [openStream] at hw) (by intro e he; simp at he)
+
+/-- **C14_acceptor_rejects_silent_first_write.** Conversely: on an established stream with nothing outstanding, a write
+whose projection differs from the previous one and after which the reader finds the stream idle is rejected as
+`Pull/update-missing-on-stream` - the verdict of seeded C14-20 and C14-21. On a stream that is not established the
+same idle moment is accepted (the first message of an unobserved subscription stays optional). -/
+theorem C14_acceptor_rejects_silent_first_write (x xp : VId) (h : x ≠ xp) :
+    qIdle (qPush [] x xp true) = .reject "Pull/update-missing-on-stream" ∧ qIdle (qPush [] x xp false) = .ok := by
+  constructor
+  · simp [qIdle, qPush, h]
+  · simp [qIdle, qPush]
 
 /-! ### write times -/
 
@@ -136,6 +161,63 @@ theorem C14_stamp_filter_never_fires (xs : List (Stamp.Step V)) : ∀ s : St V, 
     simp only [Stamp.run]
     rw [hstep]
     exact ih _ (C14_stamp_no_future_stamp false s x h)
+
+/-- the value a step announces, if any -/
+def announced (s : St V) : Stamp.Step V → List V
+  | .send w =>
+    match take w s.pending with
+    | some ((v, _), _) => [v]
+    | none => []
+  | _ => []
+
+/-- the values announced along a schedule under HEAD's stamps, in send order -/
+def sentAlong (skip : Bool) : St V → List (Stamp.Step V) → List V
+  | _, [] => []
+  | s, x :: xs => announced s x ++ sentAlong skip (Stamp.step false skip s x) xs
+
+/-- **C14_stamp_subscriber_gets_every_later_announcement.** Whole-history form, HEAD's stamps, either subscriber
+policy, ANY schedule of writers' begin / store / send steps, further subscriptions and clock ticks: a subscriber's
+output afterwards is what it had plus EVERY value announced along the schedule, in send order - nothing is skipped,
+nothing else is added, its seed time is untouched. -/
+theorem C14_stamp_subscriber_gets_every_later_announcement (skip : Bool) (xs : List (Stamp.Step V)) :
+    ∀ s : St V, Inv s → ∀ (j : Nat) (sb : Stamp.Sub V), s.subs[j]? = some sb →
+      ∃ sb', (Stamp.run false skip s xs).subs[j]? = some sb' ∧ sb'.seedTime = sb.seedTime ∧
+        sb'.out = sb.out ++ sentAlong skip s xs := by
+  induction xs with
+  | nil => intro s _ j sb hj; exact ⟨sb, hj, rfl, by simp [sentAlong]⟩
+  | cons x xs ih =>
+    intro s h j sb hj
+    have hinv := C14_stamp_no_future_stamp skip s x h
+    -- one step: the subscriber is still at index j, with the announced value (if any) appended
+    have hone : ∃ sb1, (Stamp.step false skip s x).subs[j]? = some sb1 ∧ sb1.seedTime = sb.seedTime ∧
+        sb1.out = sb.out ++ announced s x := by
+      cases x with
+      | tick => exact ⟨sb, hj, rfl, by simp [announced]⟩
+      | begin w => exact ⟨sb, hj, rfl, by simp [announced]⟩
+      | store w v => exact ⟨sb, hj, rfl, by simp [announced]⟩
+      | sub =>
+        refine ⟨sb, ?_, rfl, by simp [announced]⟩
+        have hlt : j < s.subs.length := by
+          rcases Nat.lt_or_ge j s.subs.length with hl | hl
+          · exact hl
+          · rw [List.getElem?_eq_none hl] at hj; cases hj
+        simp only [Stamp.step]
+        rw [List.getElem?_append_left hlt]
+        exact hj
+      | send w =>
+        cases ht : take w s.pending with
+        | none => exact ⟨sb, by simpa [Stamp.step, ht] using hj, rfl, by simp [announced, ht]⟩
+        | some r =>
+          obtain ⟨⟨v, b⟩, rest⟩ := r
+          have hs := C14_stamp_send_reaches_every_subscriber skip s h w v b rest ht
+          refine ⟨{ sb with out := sb.out ++ [v] }, ?_, rfl, by simp [announced, ht]⟩
+          rw [hs, List.getElem?_map, hj]
+          rfl
+    obtain ⟨sb1, h1, h2, h3⟩ := hone
+    obtain ⟨sb', g1, g2, g3⟩ := ih _ hinv j sb1 h1
+    refine ⟨sb', by simpa [Stamp.run] using g1, by rw [g2, h2], ?_⟩
+    rw [g3, h3]
+    simp [sentAlong, List.append_assoc]
 
 /-- writer 1 enters its write, time passes, writer 2 re-sends the current value 5 (stored and announced), a seeded
 subscription is opened, writer 1's value 7 is stored and announced -/
